@@ -9,6 +9,10 @@ TEXT = {
         level="Same world as C01 with time-indexed select/insert interleaved with the ring-buffer writers so the pointer is anywhere; spy interpolation/extrapolation callables observe which samples and which elapsed time the record hands over; scalar/tensor twins; out-of-range times as refused-operation faults; round trips through every shipped interp/extrap pair.",
         ref="DESIGN.md 5.2", note="Times closer than a float32 rounding margin to a tolerance or range boundary are not judged (counted as undecided in the evidence).",
         technique=SIM + ", spy callables through the public interp=/extrap= seams"),
+    "C03": dict(
+        level="Simulated time over all eight neuron classes: every step is a refinement check from the real pre-state against a float64 mirror of the documented equations (refractory decrement floored at 0, out-of-refractory mask, integrated voltage vs current threshold incl. adaptive thresholds / adaptation currents, reset voltage, voltage lock, refractory time after the step, spike attribute), plus whole-history invariants (no spike and no locked-voltage change before t + max(1, ceil(refrac/dt))); inputs include zero, constant, gaussian, huge, negative and adversarial near-threshold drives solved from the pre-state; clear() and train/eval switches are injected between steps.",
+        ref="DESIGN.md 5.4", note="Threshold decisions within a scaled 1e-3 margin are counted as undecided, never judged; neuron.spike with refrac_t == 0 is a recorded known finding.",
+        technique="deterministic simulation: simulated step clock, per-step refinement vs float64 mirror, history invariants, clear/mode-switch events"),
     "C07": dict(
         level="Seeded observation histories (boolean and real, with conditions) with interleaved clear(keepshape True/False) faults against every trace / fold reducer and the functional trace_* family; after each observation the latest value is compared with the float64 closed form over the event list since the last clear, an in-place twin must stay bit-identical, and time-indexed views (scalar, tensor, on and off the grid) and dumps are compared with the values the reducer itself reported at those steps.",
         ref="DESIGN.md 5.8", note="Continuous values use |a-b| <= 2e-5 + 2e-4|b|; views older than the first observation since a clear are not judged (nothing was recorded then).",
